@@ -36,6 +36,12 @@ func judge(c Case, proj *dawn.Project, loadErr error, evs *events, where string)
 			return fail("module-loaded-twice", "module %s was executed %d times", l, n)
 		}
 	}
+	if c.missingReachable() {
+		if loadErr == nil {
+			return fail("missing-module-loaded", "a reachable module file does not exist but the load succeeded")
+		}
+		return nil
+	}
 	if cyclic, _ := c.cycle(); cyclic {
 		if loadErr == nil {
 			return fail("cycle-not-reported", "the load graph has a cycle but the load succeeded")
@@ -104,6 +110,9 @@ func execReload(rc ReloadCase) (v ev.Verdict) {
 	if f := judge(g0, proj, err, evs, "initial load"); f != nil {
 		return *f
 	}
+	if proj == nil {
+		return ev.Verdict{Skip: "first-load-failed"}
+	}
 	afterCycle := false
 	for i, g := range rc.Graphs[1:] {
 		g.write(dir)
@@ -149,6 +158,7 @@ func execReload(rc ReloadCase) (v ev.Verdict) {
 
 func genReload(t *rapid.T) ReloadCase {
 	first := gen(t)
+	first.Missing = nil // the project must load once before it can be reloaded
 	// make the first graph acyclic by dropping every load that points "backwards"
 	np, nh := len(first.Pkgs), len(first.Helpers)
 	for h := range first.Helpers {
